@@ -835,11 +835,13 @@ FINISH:
 	// Finally, re-take the lock, mark sent and remove any entries from our
 	// message that we've decided to cancel at the last minute.
 	mq.wllock.Lock()
+	removed := false
 	for i, e := range peerEntries[:sentPeerEntries] {
 		if !mq.peerWants.markSent(e) {
 			// It changed.
 			mq.msg.Remove(e.Cid)
 			peerEntries[i].Cid = cid.Undef
+			removed = true
 		}
 	}
 
@@ -847,6 +849,28 @@ FINISH:
 		if !mq.bcstWants.markSent(e) {
 			mq.msg.Remove(e.Cid)
 			bcstEntries[i].Cid = cid.Undef
+			removed = true
+		}
+	}
+
+	if removed {
+		// A peer want and a broadcast want for the same CID share one entry
+		// of the message, and Remove deletes that entry as a whole. Put back
+		// the part that was marked as sent above. Adding an entry that is
+		// still in the message changes nothing.
+		for _, e := range peerEntries[:sentPeerEntries] {
+			if e.Cid.Defined() {
+				mq.msg.AddEntry(e.Cid, e.Priority, e.WantType, true)
+			}
+		}
+		for _, e := range bcstEntries[:sentBcstEntries] {
+			if e.Cid.Defined() {
+				wantType := pb.Message_Wantlist_Have
+				if !supportsHave {
+					wantType = pb.Message_Wantlist_Block
+				}
+				mq.msg.AddEntry(e.Cid, e.Priority, wantType, false)
+			}
 		}
 	}
 
